@@ -628,6 +628,32 @@ func knownFindingMonitors(pre, post *te.VerifSnap, im *impl, evFrom int, step in
 				Detail: "a character written on the second cell of a wide character in the last two columns (span buffer) is inserted beyond the right edge and lost instead of overwriting the last column"})
 		}
 	}
+	// C17: "each set/reset is reported to the frontend with the value now in force" — the
+	// Frontend interface has no flag for autowrap (?7): a change of the active buffer's
+	// autowrap setting is reported only if some view flag outside the six known ones is
+	// announced during the step (which is what a repair would have to add).
+	if pre.OnAlt == post.OnAlt && strings.HasPrefix(tags, "[63.") {
+		act := 0
+		if pre.OnAlt {
+			act = 1
+		}
+		if pre.Screens[act].Wrap != post.Screens[act].Wrap {
+			reported := false
+			for _, e := range im.fe.events[evFrom:] {
+				if e.kind == "f" {
+					var fl, val int
+					fmt.Sscanf(e.s, "f:%d:%d", &fl, &val)
+					if fl > 5 && (val == 1) == post.Screens[act].Wrap {
+						reported = true
+					}
+				}
+			}
+			if !reported {
+				*out = append(*out, finding{Step: step, Kind: "monitor", Prop: "C17", Clause: "autowrap-not-reported", Tags: tags,
+					Detail: "the autowrap setting (?7) changed and no callback told the frontend the value now in force"})
+			}
+		}
+	}
 	// C07: an SGR sequence with more parameters than the parser stores
 	if tags == "[0.109" && len(stepBytes) > 0 && stepBytes[len(stepBytes)-1] == 'm' {
 		if n := strings.Count(string(stepBytes), ";") + 1; n > 32 {
